@@ -350,8 +350,10 @@ class Extract(object):
 
     def new_stub(self, interp, args, info):
         f = [None] * self.nf
-        f[self.f_lower] = BoxV(Cell(args[0]))
-        f[self.f_upper] = BoxV(Cell(args[1]))
+        ftys = self.prog.adts["range::BoundSet"].get("field_tys", [[]])[0]
+        boxed = [self.prog.ty_str(t).startswith("std::boxed::Box<") for t in ftys] if ftys else [True] * self.nf
+        f[self.f_lower] = BoxV(Cell(args[0])) if boxed[self.f_lower] else args[0]
+        f[self.f_upper] = BoxV(Cell(args[1])) if boxed[self.f_upper] else args[1]
         interp.events.append(("new", args[0], args[1]))
         return some(Adt("range::BoundSet", 0, f))
 
